@@ -10,19 +10,22 @@ def sc(scripts, K, block, q="interrupt", finding=None):
     return (spec, K, q, (0, D_POLLS) if q == "interrupt" else (), block, len(spec) - 1, finding)
 
 
+OW = "interrupt-overwrite"
+
+
 SCEN = {
     "quick": {
         "host-interrupt x interpreter": sc([[U, U, U, U]], 24, []),
-        "host-interrupt x interpreter x collect": sc([[U, U, U, U], [G]], 40, []),
-        "host-interrupt x interpreter x collect [overwrite excluded]": sc([[U, U, U, U], [G]], 40, ["interrupt-overwrite"]),
+        "host-interrupt x interpreter x collect": sc([[U, U, U, U], [G]], 40, [], "interrupt", OW),
+        "host-interrupt x interpreter x collect [overwrite excluded]": sc([[U, U, U, U], [G]], 40, ["interrupt-overwrite"], "interrupt", OW),
         "host-interrupt x primitive-call: target never stuck": sc([[P, U]], 24, [], "lasso", "interrupt-mid"),
         "host-interrupt x primitive-call: target never stuck [two-store window excluded]": sc([[P, U]], 24, ["interrupt-mid"], "lasso", "interrupt-mid"),
     },
     "thorough": {
         "host-interrupt x interpreter": sc([[U, U, U, U, U]], 30, []),
-        "host-interrupt x interpreter x collect": sc([[U, U, U, U], [G]], 40, []),
-        "host-interrupt x interpreter x collect [overwrite excluded]": sc([[U, U, U, U], [G]], 46, ["interrupt-overwrite"]),
-        "host-interrupt x interpreter x assign-global [overwrite excluded]": sc([[U, U, U, U], [S]], 46, ["interrupt-overwrite"]),
+        "host-interrupt x interpreter x collect": sc([[U, U, U, U], [G]], 40, [], "interrupt", OW),
+        "host-interrupt x interpreter x collect [overwrite excluded]": sc([[U, U, U, U], [G]], 46, ["interrupt-overwrite"], "interrupt", OW),
+        "host-interrupt x interpreter x assign-global [overwrite excluded]": sc([[U, U, U, U], [S]], 46, ["interrupt-overwrite"], "interrupt", OW),
         "host-interrupt x interpreter(primitive calls)": sc([[P, P, U, U]], 34, []),
         "host-interrupt x primitive-call: target never stuck": sc([[P, U]], 24, [], "lasso", "interrupt-mid"),
         "host-interrupt x primitive-calls: target never stuck [two-store window excluded]": sc([[P, P, U]], 32, ["interrupt-mid"], "lasso", "interrupt-mid"),
@@ -39,7 +42,7 @@ def _replay(r):
 
 
 def check(pid, tier, seed):
-    return p_sync.check(pid, tier, seed, {"scenarios": SCEN, "finding": "interrupt-overwrite", "replay": _replay})
+    return p_sync.check(pid, tier, seed, {"scenarios": SCEN, "replay": _replay})
 
 
 def replay(pid, path):
